@@ -2,7 +2,7 @@
    the GenesisState value and its fields, loops over its lists, pointer fields, panic, and the whole-collection getters. *)
 From Coq Require Import List ZArith Bool Arith Lia.
 Import ListNotations.
-From Cctp Require Import Lib.Bytes Lib.SMap.
+From Cctp Require Import Lib.Bytes Lib.SMap Lib.Bech32.
 From Cctp Require Import Model.Codec Model.State Model.Attest Model.Ledger Model.Handlers Model.Genesis Proofs.MonadFacts Gen.GoSem.
 
 (* ---- types.GenesisState is the model's genesis record; *T fields are options, a Nonce{Nonce: n} stands for n ---- *)
@@ -163,3 +163,71 @@ Ltac go_genesis_export :=
   cbn [h_st bm_paused sr_paused] in Hb, Hs;
   destruct bm; [|exfalso; apply Hb; reflexivity]; destruct sr; [|exfalso; apply Hs; reflexivity];
   destruct o, am, p, tc, mb, nn, thr; vm_compute; reflexivity.
+
+(* ---- a loop that carries a value: for _, a := range l { s = body(a, s) } ---- *)
+Fixpoint go_loop {A S} (body : A -> S -> M S) (l : list A) (s : S) : M S :=
+  match l with [] => ret s | a :: r => s' <- body a s ;; go_loop body r s' end.
+
+(* the duplicate check of Validate: each key is looked up among the keys seen so far *)
+Fixpoint dupL (seen ks : list bytes) : bool :=
+  match ks with [] => false | k :: r => existsb (beqb k) seen || dupL (k :: seen) r end.
+
+Lemma existsb_beqb_sym k l : existsb (beqb k) l = existsb (fun x => beqb x k) l.
+Proof. induction l as [|x l IH]; cbn; [reflexivity|]. rewrite IH, (beqb_sym k x). reflexivity. Qed.
+
+Lemma dupL_spec ks : forall seen, dupL seen ks = existsb (fun k => existsb (beqb k) seen) ks || has_dup ks.
+Proof.
+  induction ks as [|k r IH]; intros seen; cbn [dupL existsb has_dup]; [reflexivity|].
+  rewrite IH. cbn [existsb].
+  assert (E : existsb (fun k0 => beqb k0 k || existsb (beqb k0) seen) r
+              = existsb (beqb k) r || existsb (fun k0 => existsb (beqb k0) seen) r).
+  { clear IH. induction r as [|x r IHr]; cbn; [reflexivity|]. rewrite IHr, (beqb_sym k x).
+    destruct (beqb x k), (existsb (beqb x) seen), (existsb (beqb k) r); reflexivity. }
+  rewrite E.
+  destruct (existsb (beqb k) seen), (existsb (beqb k) r), (existsb (fun k0 => existsb (beqb k0) seen) r), (has_dup r); reflexivity.
+Qed.
+Lemma dupL_nil ks : dupL [] ks = has_dup ks.
+Proof. rewrite dupL_spec. assert (existsb (fun k => existsb (beqb k) []) ks = false) as -> by (induction ks; auto). reflexivity. Qed.
+
+Lemma dup_loop {A} (key : A -> bytes) (l : list A) : forall seen h,
+  go_loop (fun a m => go_fail_if (existsb (beqb (key a)) m) ;;; ret (key a :: m)) l seen h
+  = if dupL seen (map key l) then (RErr, h) else (ROk (rev (map key l) ++ seen), h).
+Proof.
+  induction l as [|a l IH]; intros seen h; cbn [go_loop map dupL rev app]; [reflexivity|].
+  unfold bind at 1. unfold bind at 1. unfold go_fail_if, guard. destruct (existsb (beqb (key a)) seen); cbn [negb orb].
+  - reflexivity.
+  - unfold ret at 1 2. cbn beta iota. rewrite IH. destruct (dupL (key a :: seen) (map key l)); [reflexivity|].
+    rewrite <- app_assoc. reflexivity.
+Qed.
+Lemma step_dup_loop {A B} (key : A -> bytes) (l : list A) (kf : list bytes -> M B) h :
+  bind (go_loop (fun a m => go_fail_if (existsb (beqb (key a)) m) ;;; ret (key a :: m)) l []) kf h
+  = if has_dup (map key l) then (RErr, h) else kf (rev (map key l) ++ []) h.
+Proof. unfold bind at 1. rewrite dup_loop, dupL_nil. destruct (has_dup (map key l)); reflexivity. Qed.
+
+Lemma step_fail_if {B} (c : bool) (kf : unit -> M B) h : bind (go_fail_if c) kf h = if c then (RErr, h) else kf tt h.
+Proof. destruct c; reflexivity. Qed.
+Lemma step_lift_opt {A B} (o : option A) (kf : A -> M B) h :
+  bind (lift_opt o) kf h = match o with Some a => kf a h | None => (RErr, h) end.
+Proof. destruct o; reflexivity. Qed.
+Lemma step_if_unit {B} (c : bool) (m : M unit) (kf : unit -> M B) h :
+  bind (if c then m else ret tt) kf h = if c then bind m kf h else kf tt h.
+Proof. destruct c; reflexivity. Qed.
+
+Ltac go_genesis_validate :=
+  let e := fresh "e" in let g := fresh "g" in let h := fresh "h" in
+  intros e g h; go_genesis_unfold;
+  unfold go_f_Attester_Attester, go_f_PerMessageBurnLimit_Denom, go_f_TokenPair_RemoteDomain, go_f_TokenPair_RemoteToken,
+         go_f_Nonce_SourceDomain, go_f_Nonce_Nonce, go_f_RemoteTokenMessenger_DomainId, validate, role_ok, valid_addr;
+  destruct g as [o am p tc atts lims bm sr mb nn thr prs nns ms];
+  cbn [g_owner g_attester_manager g_pauser g_token_controller g_attesters g_limits g_bm_paused g_sr_paused g_max_body
+       g_next_nonce g_threshold g_pairs g_nonces g_messengers];
+  cbv zeta;
+  repeat (progress (
+    repeat first [ rewrite step_if_unit | rewrite step_dup_loop | rewrite step_fail_if | rewrite step_lift_opt
+                 | rewrite step_unit_block | rewrite step_ret | rewrite step_assoc ];
+    cbn beta iota));
+  destruct o as [|? ?], am as [|? ?], p as [|? ?], tc as [|? ?]; cbn [beqb negb andb];
+  repeat match goal with |- context [acc_address ?a ?b] => destruct (acc_address a b) end;
+  cbn [negb andb];
+  repeat match goal with |- context [has_dup ?l] => destruct (has_dup l) end;
+  destruct bm, sr; cbn [negb andb]; reflexivity.
